@@ -271,6 +271,31 @@ func runC01(tier string) int {
 				}
 			}
 		})
+		// ... and the same shapes with their body, every block, or one statement moved into a poryswitch case (a switch on an
+		// AutoVar command is two statements - the command and the switch - also where a colon case takes "one statement")
+		r.Parallel(uint64(len(autoProgs)), func(w int, i uint64) {
+			p := autoProgs[i]
+			scripts := []*model.Script{p.Script}
+			o := &comp.Opts{Cmd: autoCfg, Switches: map[string]string{"PV": "SEL"}}
+			for wi, src := range c12Wrappings(model.Print(scripts)) {
+				r.Add("programs", 1)
+				r.Add("autovar_programs_wrapped", 1)
+				for _, opt := range []bool{true, false} {
+					ok, rej, st, v, out := checkScripts(scripts, src, opt, machine.Lazy, o)
+					if !ok {
+						r.Report(harness.Violation{Sig: fmt.Sprintf("C01:autovar:wrapped%d:rejected:%s", wi, firstWords(rej, 5)), Summary: fmt.Sprintf("%s rejected once moved into a poryswitch case (wrapping %d): %s\n  source: %q", p.Desc, wi, rej, src), Replay: map[string]interface{}{"source": src, "error": rej}})
+						continue
+					}
+					r.Add("evaluations", 1)
+					r.Add("nontrivial", 1)
+					addStats(r, st)
+					if v != nil {
+						r.Report(harness.Violation{Sig: violationSig("C01", v) + fmt.Sprintf(":autovar:wrapped%d", wi), Summary: fmt.Sprintf("%s inside a poryswitch case (wrapping %d) optimize=%v: %s\n  source: %q", p.Desc, wi, opt, v, src),
+							Replay: map[string]interface{}{"desc": p.Desc, "source": src, "optimize": opt, "switches": o.Switches, "reference_next_event": v.A.String(), "emitted_next_event": v.B.String(), "observable_prefix": v.Trace, "emitted_assembly": out}})
+					}
+				}
+			}
+		})
 		// labels in dead code (after end / return / break / goto / an infinite loop), directly and inside every kind of block
 		dead := deadLabelPrograms()
 		r.Parallel(uint64(len(dead)), func(w int, i uint64) {
@@ -281,6 +306,11 @@ func runC01(tier string) int {
 		forEachSequenceProgram(r, seqLen, evalProg)
 		if !r.Expired() {
 			forEachScaledProgram(r, evalProg)
+			huge := hugePrograms(tier)
+			if !r.Parallel(uint64(len(huge)), func(w int, i uint64) { evalProg(w, huge[i]) }) {
+				r.NotExhaustive("huge programs not completed")
+			}
+			r.Set("huge_programs", len(huge))
 		}
 	}
 	for _, m := range local {
@@ -296,7 +326,7 @@ func runC01(tier string) int {
 		"reference lowering (model/lower.go) = meaning of the README for if/elif/else, while, do...while, break, continue, switch, labels, goto",
 		"operands are distinct per leaf, so every path is feasible (a superset of programs that reuse operands)")
 	return r.Finish(r.Get("evaluations"), r.Get("nontrivial"),
-		"every script body with exactly n nodes of each family (count+unrank, bijective, so cases are distinct by construction) x every goto assignment, plus every sequence of <= L statement templates (29 templates covering every construct), plus 13 control-flow shapes whose conditions and switch operands are AutoVar commands (empty bodies, trailing elifs, loops, switches containing switches), plus the dead-label programs (a label and gotos to it, directly and inside every block kind, after every kind of dead position), plus the sequences of <= L-1 templates with their body, every block, or one statement moved into the selected case of a poryswitch, plus scaled programs (every template repeated K times, every block kind nested K deep, switches with K cases, for every K up to the scale bounds in the coverage), plus two-script files in which gotos cross between the scripts (targets: own labels, a label in the middle of the other script, the other script, an external name), x optimize on/off; each case = full product exploration reference x emitted, all game states closed by a visited set; non-trivial = at least one environment branch point and >= 2 distinct observable events")
+		"every script body with exactly n nodes of each family (count+unrank, bijective, so cases are distinct by construction) x every goto assignment, plus every sequence of <= L statement templates (29 templates covering every construct), plus 13 control-flow shapes whose conditions and switch operands are AutoVar commands (empty bodies, trailing elifs, loops, switches containing switches), alone and moved into poryswitch cases, plus the dead-label programs (a label and gotos to it, directly and inside every block kind, after every kind of dead position), plus the sequences of <= L-1 templates with their body, every block, or one statement moved into the selected case of a poryswitch, plus scaled programs (every template repeated K times, every block kind nested K deep, switches with K cases, for every K up to the scale bounds in the coverage; single scripts with 350, 1100 and 22000 - thorough also 3000 and 45000 - copies of four templates), plus two-script files in which gotos cross between the scripts (targets: own labels, a label in the middle of the other script, the other script, an external name), x optimize on/off; each case = full product exploration reference x emitted, all game states closed by a visited set; non-trivial = at least one environment branch point and >= 2 distinct observable events")
 }
 
 // c01Shape is a coarse shape tag for findings matching.
